@@ -1633,7 +1633,9 @@ class Path:
             if k is None:
                 src = self.eval(v)
                 if isinstance(src, dict):
-                    d.update(src)
+                    from . import models as _mm
+                    for kk, vv in src.items():
+                        _mm.setitem(self, d, kk, vv)
                 else:
                     raise Unsupported("dict ** of symbolic map")
             else:
